@@ -288,6 +288,7 @@ func witnesses(c *core.Ctx) {
 	ladderWitness(c)
 	unalignedIntervalWitness(c)
 	gocWitness(c)
+	evictWitness(c)
 }
 
 // dstWitness replays Props.C13.Neg.dst_25h_day_slot_wraps on the real code with
@@ -476,10 +477,14 @@ func randomCase(c *core.Ctx, r *rand.Rand, i int) {
 		c.Branch("stream/malformed")
 		malformed(c, r)
 	default:
-		if r.Intn(3) == 0 {
+		switch r.Intn(4) {
+		case 0:
 			c.Branch("stream/shard-concurrent-writers")
 			gocCase(c, r)
-		} else {
+		case 1:
+			c.Branch("stream/shard-writers-and-eviction")
+			evictCase(c, r)
+		default:
 			c.Branch("stream/shard")
 			shardCase(c, r, i)
 		}
